@@ -441,7 +441,13 @@ func c07Check(a *artefacts, tier string, seed uint64, replay string) int {
 		pair := &c07Pair{Prog: prog.Name, Files: prog.Files, Cwd: prog.Cwd, Main: prog.Main, Cfg: cfgs[i%len(cfgs)]}
 		v := &c07Variant{Name: "det", MapMode: "random", MapSeed: uint64(i), Strategy: "random", SchedSeed: uint64(i), Parallelism: 8}
 		x, _ := c07Run(a, pair, v)
-		y, _ := c07Run(a, pair, v)
+		// the second process runs with another real GOMAXPROCS: the simulated execution must not notice
+		sp2 := pair.spec(v)
+		sp2.Label = []string{"gomaxprocs=4", "gomaxprocs=16"}[i%2]
+		var y *c07View
+		if wr := runWorld(a, sp2); wr.Res != nil {
+			y = &c07View{Res: wr.Res}
+		}
 		if x == nil || y == nil || x.Res.LogHash != y.Res.LogHash {
 			mu.Lock()
 			detBad++
